@@ -177,4 +177,144 @@ theorem sinkRows_nil (adj : Adj) (n : Nat) (z : Rat) (h : adj n = []) : sinkRows
   · subst hu; simp [sinkRows, h]
   · simp [sinkRows, hu]
 
+/-! ### duplicated targets -/
+
+/-- first occurrences, in order: what a Python dict keeps of a sequence of keys -/
+def dedupStep (T : List Nat) (s : Nat) : List Nat := if s ∈ T then T else T ++ [s]
+def dedupL (l : List Nat) : List Nat := l.foldl dedupStep []
+
+theorem dedup_fold_mem : ∀ (l T : List Nat) (x : Nat), x ∈ l.foldl dedupStep T ↔ x ∈ T ∨ x ∈ l := by
+  intro l
+  induction l with
+  | nil => intro T x; simp
+  | cons s l ih =>
+    intro T x
+    simp only [List.foldl_cons]
+    rw [ih]
+    unfold dedupStep
+    by_cases h : s ∈ T
+    · rw [if_pos h]
+      simp only [List.mem_cons]
+      constructor
+      · rintro (h1 | h1)
+        · exact Or.inl h1
+        · exact Or.inr (Or.inr h1)
+      · rintro (h1 | h1 | h1)
+        · exact Or.inl h1
+        · exact Or.inl (h1 ▸ h)
+        · exact Or.inr h1
+    · rw [if_neg h]
+      simp only [List.mem_append, List.mem_cons, List.not_mem_nil, or_false]
+      constructor
+      · rintro ((h1 | h1) | h1)
+        · exact Or.inl h1
+        · exact Or.inr (Or.inl h1)
+        · exact Or.inr (Or.inr h1)
+      · rintro (h1 | h1 | h1)
+        · exact Or.inl (Or.inl h1)
+        · exact Or.inl (Or.inr h1)
+        · exact Or.inr h1
+
+theorem mem_dedupL (l : List Nat) (x : Nat) : x ∈ dedupL l ↔ x ∈ l := by
+  unfold dedupL; rw [dedup_fold_mem]; simp
+
+theorem dedup_fold_nodup : ∀ (l T : List Nat), T.Nodup → (l.foldl dedupStep T).Nodup := by
+  intro l
+  induction l with
+  | nil => intro T h; exact h
+  | cons s l ih =>
+    intro T h
+    simp only [List.foldl_cons]
+    apply ih
+    unfold dedupStep
+    by_cases hs : s ∈ T
+    · rw [if_pos hs]; exact h
+    · rw [if_neg hs]
+      rw [List.nodup_append]
+      exact ⟨h, by simp, by intro a ha b hb; simp at hb; subst hb; exact fun e => hs (e ▸ ha)⟩
+
+theorem nodup_dedupL (l : List Nat) : (dedupL l).Nodup := dedup_fold_nodup l [] List.nodup_nil
+
+theorem dedupL_of_nodup : ∀ (l T : List Nat), (T ++ l).Nodup → l.foldl dedupStep T = T ++ l := by
+  intro l
+  induction l with
+  | nil => intro T _; simp
+  | cons s l ih =>
+    intro T h
+    simp only [List.foldl_cons]
+    have hs : s ∉ T := by
+      intro hs
+      exact (List.nodup_append.mp h).2.2 s hs s (List.mem_cons_self ..) rfl
+    have e : dedupStep T s = T ++ [s] := by unfold dedupStep; rw [if_neg hs]
+    rw [e, ih (T ++ [s]) (by simpa using h)]
+    simp
+
+/-- assigning the value a key already has leaves a dict unchanged -/
+theorem dset_same {d : List (Nat × Rat)} {k : Nat} {w : Rat} (h1 : ∃ p ∈ d, p.1 = k) (h2 : ∀ p ∈ d, p.1 = k → p = (k, w)) :
+    dset d k w = d := by
+  unfold dset
+  have : d.any (fun p => p.1 == k) = true := by
+    rw [List.any_eq_true]
+    obtain ⟨p, hp, hk⟩ := h1
+    exact ⟨p, hp, by simpa using hk⟩
+  rw [this, if_pos rfl]
+  have hm : d.map (fun p => if p.1 == k then (k, w) else p) = d.map id := by
+    apply List.map_congr_left
+    intro p hp
+    by_cases hk : p.1 = k
+    · simp [hk, h2 p hp hk]
+    · simp [hk]
+  rw [hm, List.map_id]
+
+theorem upd_id {α : Type} (c : Nat → α) (u : Nat) : upd c u (c u) = c := by
+  funext x; unfold upd; split <;> simp_all
+
+/-- a target that is already joined to the sink: both assignments rewrite existing entries with the same value -/
+theorem sinkStepW_dup {adj : Adj} {n : Nat} (z : Rat) (hwf : ∀ u, ∀ p ∈ adj u, p.1 < n) {T : List Nat} {s : Nat}
+    (hs : s < n) (hsT : s ∈ T) : sinkStepW n z (sinkRows adj n z T) s = sinkRows adj n z T := by
+  have hsn : s ≠ n := Nat.ne_of_lt hs
+  have e1 : dset (sinkRows adj n z T s) n z = sinkRows adj n z T s := by
+    apply dset_same
+    · refine ⟨(n, z), ?_, rfl⟩
+      simp [sinkRows, hsn, hsT]
+    · intro p hp hk
+      simp only [sinkRows, if_neg hsn] at hp
+      rcases List.mem_append.mp hp with h | h
+      · exact absurd hk (Nat.ne_of_lt (hwf s p h))
+      · have hc : T.contains s = true := by simpa using hsT
+        rw [hc] at h
+        simpa using h
+  have e2 : dset (sinkRows adj n z T n) s z = sinkRows adj n z T n := by
+    apply dset_same
+    · refine ⟨(s, z), ?_, rfl⟩
+      simp only [sinkRows, if_true]
+      exact List.mem_map.mpr ⟨s, hsT, rfl⟩
+    · intro p hp hk
+      simp only [sinkRows, if_true] at hp
+      obtain ⟨t, _, rfl⟩ := List.mem_map.mp hp
+      simp only at hk
+      rw [hk]
+  unfold sinkStepW cset
+  rw [e1, upd_id, e2, upd_id]
+
+theorem sink_fold_dups {adj : Adj} {n : Nat} (z : Rat) (hwf : ∀ u, ∀ p ∈ adj u, p.1 < n) : ∀ (rest T : List Nat),
+    (∀ t ∈ rest, t < n) → T.Nodup →
+    rest.foldl (sinkStepW n z) (sinkRows adj n z T) = sinkRows adj n z (rest.foldl dedupStep T) := by
+  intro rest
+  induction rest with
+  | nil => intro T _ _; rfl
+  | cons s rest ih =>
+    intro T ht hnd
+    simp only [List.foldl_cons]
+    have hs := ht s (List.mem_cons_self ..)
+    have ht' : ∀ t ∈ rest, t < n := fun t h => ht t (List.mem_cons_of_mem _ h)
+    unfold dedupStep
+    by_cases hsT : s ∈ T
+    · rw [if_pos hsT, sinkStepW_dup z hwf hs hsT]
+      exact ih T ht' hnd
+    · rw [if_neg hsT, sinkStepW_spec z hwf hs hsT]
+      apply ih _ ht'
+      rw [List.nodup_append]
+      exact ⟨hnd, by simp, by intro a ha b hb; simp at hb; subst hb; exact fun e => hsT (e ▸ ha)⟩
+
 end Mouette.Dijkstra
